@@ -5,6 +5,8 @@
      (table <fontdict>)               get_font_encoding, all 256 cells of the table it selects
      (font <fontdict> xBYTES (u ..))  get_font_encoding; decode_text BYTES; encode_text of the decoded
                                       text; decode_text of that; encode_text of the given string
+     (rt <fontdict> (u ..))           get_font_encoding; encode_text of the string; decode_text of those bytes
+     (rtall <fontdict>)               the same for the string made of every defined cell of the selected table
      (extract (pages (page (fonts (xNAME <dict>)..) (ops (xOPERATOR <obj>..)..))..) (nums n..) ..)
                                       extract_text_chunks and extract_text *)
 From LV Require Import Base.Bytes Base.Sx Model.Utf Model.Obj Model.OneByte Model.TextString
@@ -153,6 +155,39 @@ Definition run (x : sx) : sx :=
           | _ => SL [sx_id "font"; sx_enc e]
           end
         | _, _, _ => sx_id "badcase"
+        end
+      | _ => sx_id "badcase"
+      end
+    else if is_id tag "rt" then
+      match args with
+      | [d; s] =>
+        match dict_of_sx d, ustring_of_sx s with
+        | Some d, Some s =>
+          let e := get_font_encoding d in
+          match e with
+          | Ok enc =>
+            let en := enc_string_to_bytes enc s in
+            SL [sx_id "rt"; sx_enc e; sx_res sx_bytes en; sx_res sx_ustring (rbind en (enc_bytes_to_string enc))]
+          | _ => SL [sx_id "rt"; sx_enc e]
+          end
+        | _, _ => sx_id "badcase"
+        end
+      | _ => sx_id "badcase"
+      end
+    else if is_id tag "rtall" then
+      match args with
+      | [d] =>
+        match dict_of_sx d with
+        | Some d =>
+          let e := get_font_encoding d in
+          match e with
+          | Ok (EncOneByte t) =>
+            let s := bytes_to_units t all_byte_values in
+            let en := string_to_bytes t s in
+            SL [sx_id "rtall"; sx_enc e; sx_ustring s; sx_bytes en; sx_res sx_ustring (bytes_to_string t en)]
+          | _ => SL [sx_id "rtall"; sx_enc e]
+          end
+        | None => sx_id "badcase"
         end
       | _ => sx_id "badcase"
       end
